@@ -156,7 +156,8 @@ def brentsroot(f, bounds, tol=None, verbose=False, return_interval=False):
         numiter += 1
         d = c
 
-        if fa * fs < 0:
+        # compare the signs, not the product: the product of two tiny function values underflows to zero
+        if D.ar_numpy.sign(fa) * D.ar_numpy.sign(fs) < 0:
             b = s
             fb = fs
         else:
@@ -260,7 +261,8 @@ def brentsrootvec(f, bounds, tol=None, verbose=False, return_interval=False, acc
     fs = D.ar_numpy.copy(fc)
 
     mflag = D.ar_numpy.ones_like(a, dtype=bool, like=upper_bound)
-    conv[fa * fb >= 0] = False
+    # compare the signs, not the product: the product of two tiny function values underflows to zero
+    conv[D.ar_numpy.sign(fa) * D.ar_numpy.sign(fb) >= 0] = False
     not_conv = D.ar_numpy.logical_not(conv)
     # a lane that starts from a sign change keeps one: a bracket narrower than `tol` locates the
     # crossing however steep the function is there
@@ -303,7 +305,7 @@ def brentsrootvec(f, bounds, tol=None, verbose=False, return_interval=False, acc
         numiter[conv] = numiter[conv] + 1
         d = c
 
-        mask = fa * fs < 0
+        mask = D.ar_numpy.sign(fa) * D.ar_numpy.sign(fs) < 0
         mask[not_conv] = False
         b[mask] = s[mask]
         fb[mask] = fs[mask]
